@@ -1489,6 +1489,14 @@ fn gen_c17_case(r: &mut Rng, stats: &mut HashMap<String, usize>) -> (String, Vec
     let k = r.range(1, all.len().min(5));
     // cut points
     let mut cuts: Vec<usize> = (0..k - 1).map(|_| r.range(1, all.len() - 1)).collect();
+    // a border right before a guarded statement (the blocks on both sides of it then meet at the border)
+    let ifs: Vec<usize> = (1..all.len()).filter(|&i| all[i].starts_with("if(")).collect();
+    if !ifs.is_empty() && r.chance(1, 2) {
+        cuts.push(*r.pick(&ifs[..]));
+        if r.chance(1, 2) {
+            cuts.push(*r.pick(&ifs[..]));
+        }
+    }
     cuts.sort();
     cuts.dedup();
     let mut chunks = Vec::new();
